@@ -14,3 +14,5 @@ verif_exe(valtool valtool.cpp)
 
 verif_exe(bsx bsx.cpp)
 add_executable(vtool vtool.c)
+
+verif_exe(ninjadump ninjadump.cpp)
